@@ -58,7 +58,10 @@ def run(tier):
                         explanation="CodeFormat.READ_STATEMENTS vs EXEC_CLASSES on every accepted corpus part and the layout "
                                     "family: equal final registers/memory/jump/cancel/locals for all initial states, equal "
                                     "attribute lists, equal acceptance", bounds=dict(unroll=unroll, solver_timeout_ms=timeout),
-                        family_programs=len(progs))
+                        family_programs=len(progs),
+                        functions_encoded=["Compiler.transform_insn / compile_c_stmt under CodeFormat.READ_STATEMENTS and EXEC_CLASSES",
+                                           "RZILTransformer.emit_read_block / emit_exec_block / emit_stmt_blocks / emit_write_block (through their output)",
+                                           "ILOpsHolder ordering, Pures/Effects/Hybrids il_init_var / il_write / il_exec"])
     rep.samples = [dict(key=r["key"], verdict=r["verdict"]) for r in recs[::max(1, len(recs) // 8)]][:10]
     rep.assumptions = ["RzIL semantics of vf/ilsem.py; no C side involved (no operand-contract dependence)",
                        "compiler temporaries h_tmpN are not observables (their numbering may differ)"]
